@@ -551,3 +551,153 @@ pub fn replay(args: &Args) {
     sum.set("events", json!(nev));
     sum.write(args.opt("summary").unwrap_or("/dev/stdout"));
 }
+
+/// C34 with the real clock moving: headers `delta` seconds apart, four stored blocks inside the sampling window,
+/// one sampling slot.  The harness withholds the answers of the block in progress while real time passes, so the
+/// blocks waiting in the queue leave the window; when the slot becomes free the worker must not start them.
+/// The clock is sampled as now = floor(x + 0.5), x = (real now - base) / delta, which makes `now - h < k` exactly
+/// the code's window test; the harness only acts while the fractional part is away from the rounding point.
+pub fn record_aging(args: &Args) {
+    let runs = args.opt_u64("runs", 2);
+    let delta = args.opt_u64("delta", 2);
+    let n = 12u64;
+    let k = 4u64;
+    let mut tw = TraceWriter::create(args.opt("out").expect("--out"));
+    let mut sum = Summary::new("daser-aging");
+    h_common::QUIET_ALL.store(true, std::sync::atomic::Ordering::Relaxed);
+    let rt = tokio::runtime::Builder::new_current_thread().enable_all().start_paused(true).build().unwrap();
+    rt.block_on(async {
+        for run in 0..runs {
+            let t0 = std::time::SystemTime::now();
+            let now = Time::now();
+            let base = (now - Duration::from_secs(n * delta)).unwrap();
+            let base_sys = t0 - Duration::from_secs(n * delta);
+            let clock = || -> u64 {
+                loop {
+                    let x = std::time::SystemTime::now().duration_since(base_sys).unwrap().as_secs_f64() / delta as f64 + 0.5;
+                    let frac = x - x.floor();
+                    if (0.15..0.85).contains(&frac) {
+                        return x.floor() as u64;
+                    }
+                    std::thread::sleep(Duration::from_millis(50));
+                }
+            };
+            let mut g = ExtendedHeaderGenerator::new();
+            g.set_time(base, Duration::from_secs(delta));
+            let mut chain: Vec<ExtendedHeader> = vec![];
+            let mut edss: Vec<ExtendedDataSquare> = vec![];
+            for _ in 0..n {
+                let eds = generate_dummy_eds(2, AppVersion::V2);
+                let dah = DataAvailabilityHeader::from_eds(&eds);
+                chain.push(g.next_with_dah(dah));
+                edss.push(eds);
+            }
+            let (p2p, handle) = w::mocked_p2p();
+            let shared = Arc::new(Mutex::new(Shared { handle, pending: vec![], graveyard: vec![], log: vec![], sub: None, n_started: 0, n_timeout: 0, fatal: false }));
+            let sh2 = shared.clone();
+            let hook: crate::recstore::Hook = Arc::new(move |c: Call<'_>| {
+                let mut sh = sh2.lock().unwrap();
+                drain_events(&mut sh);
+                drain_cmds(&mut sh);
+                match c {
+                    Call::Meta(h, cids, ok) => {
+                        let shares: Vec<Value> = cids.iter().map(|c| match sid(c) {
+                            Some((hh, r, cc)) if hh == h => json!([r, cc]),
+                            _ => json!([65535, 65535]),
+                        }).collect();
+                        sh.log.push(json!({"name": "meta", "h": h, "shares": shares, "ok": ok as u8}));
+                    }
+                    Call::Mark(h, ok) => sh.log.push(json!({"name": "mark", "h": h, "ok": ok as u8})),
+                    _ => {}
+                }
+            });
+            let store = Arc::new(RecStore::new(InMemoryStore::new(), hook));
+            let events = Events::new();
+            shared.lock().unwrap().sub = Some(events.subscribe());
+            let wsamp = Duration::from_millis(((k - 1) * delta) * 1000 + delta * 500);
+            let mut cur = clock();
+            tw.emit(json!({"name": "reset", "run": run, "now": cur}));
+            let tail = n - (k - 1);
+            store.inner.insert(chain[(tail - 1) as usize..n as usize].to_vec()).await.unwrap();
+            for h in tail..=n {
+                tw.emit(json!({"name": "insert", "h": h, "w": 2}));
+            }
+            let daser = VDaser::start(&p2p, store.clone(), &events, wsamp, 1, 0).unwrap();
+            let flush = |tw: &mut TraceWriter, shared: &Arc<Mutex<Shared>>| -> usize {
+                let mut sh = shared.lock().unwrap();
+                drain_events(&mut sh);
+                drain_cmds(&mut sh);
+                let n = sh.log.len();
+                for v in sh.log.drain(..) {
+                    tw.emit(v);
+                }
+                n
+            };
+            shared.lock().unwrap().handle.announce_peer_connected();
+            tw.emit(json!({"name": "connect"}));
+            let mut started_old = 0u64;
+            // per block in progress: let `wait` ticks pass before answering it
+            for wait in [2u64, 2, 1, 1] {
+                loop {
+                    settle().await;
+                    if flush(&mut tw, &shared) == 0 {
+                        break;
+                    }
+                }
+                if shared.lock().unwrap().pending.is_empty() || shared.lock().unwrap().fatal {
+                    break;
+                }
+                let target = cur + wait;
+                while cur < target {
+                    std::thread::sleep(Duration::from_millis(300));
+                    let c2 = clock();
+                    if c2 != cur {
+                        cur = c2;
+                        tw.emit(json!({"name": "tick", "now": cur}));
+                    }
+                }
+                // answer the whole block in progress; the clock is read (away from a rounding point) right before
+                // the last answer goes out, the worker reacts within milliseconds under that same clock value
+                loop {
+                    let next = {
+                        let mut sh = shared.lock().unwrap();
+                        if sh.pending.is_empty() { None } else { Some(sh.pending.swap_remove(0)) }
+                    };
+                    let Some((h, r, c, cid, tx)) = next else { break };
+                    let last = shared.lock().unwrap().pending.is_empty();
+                    if last {
+                        let c2 = clock();
+                        if c2 != cur {
+                            cur = c2;
+                            tw.emit(json!({"name": "tick", "now": cur}));
+                        }
+                    }
+                    tw.emit(json!({"name": "ans", "h": h, "r": r, "c": c}));
+                    let _ = tx.send(Ok(block_bytes(&edss[(h - 1) as usize], &cid, r, c)));
+                    if last {
+                        break;
+                    }
+                }
+                for _ in 0..3 {
+                    settle().await;
+                    flush(&mut tw, &shared);
+                }
+                // a block whose age is already k or more must not have been started
+                let sh = shared.lock().unwrap();
+                started_old += sh.pending.iter().filter(|x| cur - x.0 >= k).count() as u64;
+            }
+            for _ in 0..3 {
+                settle().await;
+                flush(&mut tw, &shared);
+            }
+            daser.stop();
+            daser.join().await;
+            let n_started = shared.lock().unwrap().n_started;
+            sum.case("C34", Some(format!("aging/{run}")), || json!({"mode": "aging", "delta_s": delta, "started": n_started,
+                     "final_clock": cur, "requests_for_blocks_older_than_the_window": started_old}));
+        }
+    });
+    let nev = tw.finish();
+    sum.set("events", json!(nev));
+    sum.write(args.opt("summary").unwrap_or("/dev/stdout"));
+}
